@@ -151,23 +151,26 @@ def gen_case(rng, maxlen=10):
     n = rng.randint(1, maxlen)
     style = rng.random()
     pclear = 0.15 if style < 0.3 else (0.6 if style < 0.6 else 0.92)     # how disciplined the history is
-    hist = []
+    hist, nh = [], 0
+    def target():        # half of the clearing calls aim at the circuit compiled last (the one that holds the IR, if any does)
+        return nh - 1 if nh and rng.random() < 0.5 else rng.randrange(100)
     for _ in range(n):
         r = rng.random()
         if r < 0.5:
             hist.append([rng.choice(["compile", "compile", "run"]), rng.choice(MODELS), rng.random() < 0.5,
-                         rng.random() < pclear, rng.random() < 0.4])
+                         rng.random() < pclear, rng.random() < 0.4]); nh += 1
         elif r < 0.6:
-            hist.append(["yload", None, False, rng.random() < pclear, False])
+            hist.append(["yload", None, False, rng.random() < pclear, False]); nh += 1
         elif r < 0.66:
             hist.append(["yupd", rng.choice(["5", "3/2"])])
         elif r < 0.78:
-            hist.append(["mclear", rng.randrange(100)])
+            hist.append(["mclear", target()])
         elif r < 0.9:
-            hist.append(["uclear", rng.randrange(100)])
+            hist.append(["uclear", target()])
         else:
             hist.append(["cfc", rng.random() < 0.6, rng.random() < 0.7])
-    if rng.random() < 0.15:
+    touched_yaml = any(o[0] in ("yupd", "yload") for o in hist)
+    if rng.random() < (0.6 if touched_yaml else 0.1):
         final = ["yload", None, False, False, False]
     else:
         final = ["compile", rng.choice(MODELS), rng.random() < 0.5, False, False]
@@ -295,7 +298,7 @@ def shrink(ctx, case):
 def check(ctx):
     pr = proof_gate(ctx, NEEDS)
     problem = proof_problem(pr)
-    n = 64 if ctx.tier == "quick" else 1200
+    n = 80 if ctx.tier == "quick" else 1200
     if problem:
         n *= 3
     corpus = load_corpus("C13")
